@@ -194,6 +194,14 @@ def stepLine (d : DSt) (ws : List String) : DSt × String :=
       ({ d with sys := s' },
        s!"an={showOpt (an.map (fun p => s!"{showIp p.1}:{showIp p.2}"))} ptok={showBool (ptAllowed pth m.passthrough)} live={showLive s'} {showHost d.names s'.host}")
     | _, _ => (d, "bad-op")
+  | "cutfinish" :: kstr :: rest =>
+    match kstr.toNat?, manifest? rest, (kv rest "pth").bind ipList? with
+    | some k, some m, some pth =>
+      let an := if m.shared then none else netGet m.owner d.sys.live
+      let s' := sysCleanupCut k m d.sys
+      ({ d with sys := s' },
+       s!"an={showOpt (an.map (fun p => s!"{showIp p.1}:{showIp p.2}"))} ptok={showBool (ptAllowed pth m.passthrough)} live={showLive s'} {showHost d.names s'.host}")
+    | _, _, _ => (d, "bad-op")
   | ["plantrule", r, o] =>
     match rule? r, o.toNat? with
     | some k, some o =>
